@@ -673,46 +673,53 @@ example : ∀ s' out, UHS.take Eu 60 30 (UHS.St.empty Gu) [] = some (s', out, tr
   fun s' out h => C02_HS_U_exactly_once Eu uRank2 _ Eu_rhyp (fun _ => rfl) s0 60 30 s' out h
 
 /-- **every `query(S, program)` returns** (no KeyError, no failed assertion, fuel not exhausted) with fuel
-    `(rank S + 1) · (L + Al + A + 6)` in a state that satisfies the invariants, `L` / `Al` / `A` bounding
+    `(rank S + 1) · (L + Al + A + 6 + D)` in a state that satisfies the invariants, `L` / `Al` / `A` bounding
     the number of rules of a non-terminal, of alternatives of a rule and of arguments (`UHS.THyp`: also
-    every non-terminal used has a row and no row is empty) -/
+    every non-terminal used has a row and no row is empty), `D` bounding the number of rejected programs
+    (the pop loop skips each of them at most once per non-terminal: `UHS.addSucc_proc`, `UHS.undone_lt`) -/
 theorem C02_HS_U_query_total (E : UHS.Env U π) (rank : UHS.UNT U → Nat) (Good : π → Prop) (H : OHyp E rank Good)
-    (hf : ∀ p, E.filter p = true) (L Al A : Nat) (T : THyp E L Al A) (nt : UHS.UNT U) (hrow : ∃ rs, AList.lookup nt E.G.rules = some rs)
-    (n : Nat) (s : UHS.St U π) (p : Option Prog) (hn : (rank nt + 1) * (L + Al + A + 6) ≤ n)
-    (hb : Base E s) (hc : CacheC s) (hpre : OPre E rank (.query nt p) s) : ∃ res, UHS.query E n s nt p = some res :=
-  (low_all H hf T (rank nt + 1)).query nt (Nat.lt_succ_self _) hrow n s p hn hb hc hpre
+    (L Al A D : Nat) (T : THyp E L Al A) (nt : UHS.UNT U) (hrow : ∃ rs, AList.lookup nt E.G.rules = some rs)
+    (n : Nat) (s : UHS.St U π) (p : Option Prog) (hn : (rank nt + 1) * (L + Al + A + 6 + D) ≤ n)
+    (hb : Base E s) (hc : CacheC s) (hD : s.deleted.length ≤ D) (hpre : OPre E rank (.query nt p) s) :
+    ∃ res, UHS.query E n s nt p = some res :=
+  (low_all H T D (rank nt + 1)).query nt (Nat.lt_succ_self _) hrow n s p hn hb hc hD hpre
 
-/-- **TERMINATION**: with fuel at least `(rank start + 1) · (L + Al + A + 6)` for every start symbol, the
-    generator raises `StopIteration` after finitely many `next` (every `next` returns:
-    `UHS.next_total`; the yielded programs are distinct members of a finite language) -/
+/-- **TERMINATION** (with or without filter): with fuel at least `(rank start + 1) · (L + Al + A + 6 + N)` for every
+    start symbol and at least `N + 1`, `N` the length of the finite list `UHS.langList` that contains the
+    language, the generator raises `StopIteration` after finitely many `next` (every `next` returns:
+    `UHS.next_total`; the programs taken from the start heap are distinct members of a finite language) -/
 theorem C02_HS_U_stops (E : UHS.Env U π) (rank : UHS.UNT U → Nat) (Good : π → Prop) (R : RHyp E rank Good)
-    (hnf : ∀ p, E.filter p = true) (L Al A : Nat) (T : THyp E L Al A) (fuel : Nat) (hf : FuelOK E rank (L + Al + A + 6) fuel) :
+    (L Al A : Nat) (T : THyp E L Al A) (fuel : Nat)
+    (hf : FuelOK E rank (L + Al + A + 6 + (langList E rank).length) fuel) (hN : (langList E rank).length + 1 ≤ fuel) :
     ∃ k s' out, UHS.take E fuel k (UHS.St.empty E.G) [] = some (s', out, true) :=
-  take_stops R hnf T hf
+  take_stops R T hf hN
 
 /-- **C02 FOR THE UNAMBIGUOUS-GRAMMAR MACHINE ON ACYCLIC UNAMBIGUOUS GRAMMARS (full statement)**: for every
     sufficient fuel there is a number `k` of `next` steps after which the generator has stopped, and its
     output lists the language `U.genU` (several start symbols) without repetition: every program exactly once.
     Heap search = `UHeapSearch` with threshold 0 and no filter (`UHS.rhyp_prob`); the theorem holds for
-    every priority type with a strict weak order and a monotone `combine`. -/
+    every priority type with a strict weak order on the priorities of derivations and a monotone `combine`. -/
 theorem C02_HS_U_full (E : UHS.Env U π) (rank : UHS.UNT U → Nat) (Good : π → Prop) (R : RHyp E rank Good)
     (hnf : ∀ p, E.filter p = true) (L Al A : Nat) (T : THyp E L Al A) (d : UHS.UNT U) (fuel : Nat)
-    (hf : FuelOK E rank (L + Al + A + 6) fuel) :
+    (hf : FuelOK E rank (L + Al + A + 6 + (langList E rank).length) fuel) (hN : (langList E rank).length + 1 ≤ fuel) :
     ∃ k s' out, UHS.take E fuel k (UHS.St.empty E.G) [] = some (s', out, true) ∧
       out.Nodup ∧ ∀ p, p ∈ out ↔ PS.U.genU (E.G.toUCFG d) p = true := by
-  obtain ⟨k, s', out, h⟩ := take_stops R hnf T hf
+  obtain ⟨k, s', out, h⟩ := take_stops R T hf hN
   exact ⟨k, s', out, h, C02_HS_U_exactly_once E rank Good R hnf d fuel k s' out h⟩
 
-/-- the example grammar: at most 2 rules per non-terminal, 2 alternatives, 2 arguments; max rank 2:
-    enough fuel is 3 · (2 + 2 + 2 + 6) = 36 -/
+/-- the example grammar: at most 2 rules per non-terminal, 2 alternatives, 2 arguments; max rank 2; the list
+    `langList` has 22 entries: enough fuel is 3 · (2 + 2 + 2 + 6 + 22) = 102 -/
 theorem Eu_thyp : THyp Eu 2 2 2 := thyp_of_check Eu 2 2 2 (by decide)
 
-example : ∃ k s' out, UHS.take Eu 36 k (UHS.St.empty Gu) [] = some (s', out, true) ∧
+theorem Eu_langList : (langList Eu uRank2).length = 22 := by decide +kernel
+
+example : ∃ k s' out, UHS.take Eu 102 k (UHS.St.empty Gu) [] = some (s', out, true) ∧
     out.Nodup ∧ ∀ p, p ∈ out ↔ PS.U.genU (Gu.toUCFG s0) p = true :=
-  C02_HS_U_full Eu uRank2 _ Eu_rhyp (fun _ => rfl) 2 2 2 Eu_thyp s0 36 (fuelOK_of_check Eu uRank2 12 36 (by decide))
+  C02_HS_U_full Eu uRank2 _ Eu_rhyp (fun _ => rfl) 2 2 2 Eu_thyp s0 102
+    (by rw [Eu_langList]; exact fuelOK_of_check Eu uRank2 34 102 (by decide)) (by rw [Eu_langList]; decide)
 
 /-- with that fuel the machine does stop after its 22 programs (kernel evaluation) -/
-example : (UHS.take Eu 36 30 (UHS.St.empty Gu) []).map (fun r => (r.2.1.length, r.2.2)) = some (22, true) := by
+example : (UHS.take Eu 102 30 (UHS.St.empty Gu) []).map (fun r => (r.2.1.length, r.2.2)) = some (22, true) := by
   decide +kernel
 
 /-- **C02 FOR THE UNAMBIGUOUS BUCKET SEARCH** (`BucketSearch` of u_heap_search.py, no filter) on acyclic
@@ -721,19 +728,22 @@ example : (UHS.take Eu 36 30 (UHS.St.empty Gu) []).map (fun r => (r.2.1.length, 
     `add_prob_uniform` are monotone) — the generator stops and yields every program exactly once -/
 theorem C02_HS_U_bucket_full (E : UHS.Env U UHS.Bucket) (rank : UHS.UNT U → Nat) (size : Nat)
     (R : RHyp E rank (fun b : UHS.Bucket => b.length = size)) (hnf : ∀ p, E.filter p = true) (L Al A : Nat)
-    (T : THyp E L Al A) (d : UHS.UNT U) (fuel : Nat) (hf : FuelOK E rank (L + Al + A + 6) fuel) :
+    (T : THyp E L Al A) (d : UHS.UNT U) (fuel : Nat)
+    (hf : FuelOK E rank (L + Al + A + 6 + (langList E rank).length) fuel) (hN : (langList E rank).length + 1 ≤ fuel) :
     ∃ k s' out, UHS.take E fuel k (UHS.St.empty E.G) [] = some (s', out, true) ∧
       out.Nodup ∧ ∀ p, p ∈ out ↔ PS.U.genU (E.G.toUCFG d) p = true :=
-  C02_HS_U_full E rank _ R hnf L Al A T d fuel hf
+  C02_HS_U_full E rank _ R hnf L Al A T d fuel hf hN
 
 theorem Eub_rhyp : RHyp Eub uRank2 (fun b : UHS.Bucket => b.length = 3) :=
   rhyp_bucket Eub uRank2 3 rfl rfl (by decide) (by decide) (by decide) (by decide) (by decide) (by decide) (by decide)
     (by decide)
 
-example : ∃ k s' out, UHS.take Eub 36 k (UHS.St.empty Gu) [] = some (s', out, true) ∧
+theorem Eub_langList : (langList Eub uRank2).length = 22 := by decide +kernel
+
+example : ∃ k s' out, UHS.take Eub 102 k (UHS.St.empty Gu) [] = some (s', out, true) ∧
     out.Nodup ∧ ∀ p, p ∈ out ↔ PS.U.genU (Gu.toUCFG s0) p = true :=
-  C02_HS_U_bucket_full Eub uRank2 3 Eub_rhyp (fun _ => rfl) 2 2 2 (thyp_of_check Eub 2 2 2 (by decide)) s0 36
-    (fuelOK_of_check Eub uRank2 12 36 (by decide))
+  C02_HS_U_bucket_full Eub uRank2 3 Eub_rhyp (fun _ => rfl) 2 2 2 (thyp_of_check Eub 2 2 2 (by decide)) s0 102
+    (by rw [Eub_langList]; exact fuelOK_of_check Eub uRank2 34 102 (by decide)) (by rw [Eub_langList]; decide)
 end UMachine
 
 end PS.C02HS
